@@ -571,6 +571,12 @@ func (e *signersEnv) exec(line string) (res string) {
 		return "bad-op"
 	}
 	ms := metadatakeeper.NewMsgServerImpl(k)
+	// ids=<form> (message-server writes only): the message names its entry through the optional
+	// id fields (signersids_test.go)
+	idForm := op.kv["ids"]
+	if idForm != "" && (!via || !signersIDFormOK(idForm) || (op.kind != "wscope" && op.kind != "wsession" && op.kind != "wrecord")) {
+		return "bad-op"
+	}
 	// value owners (optional keys of wscope / dscope): `vo` the stored scope's, `pvo` the message's
 	_, hasVO := op.kv["vo"]
 	_, hasPVO := op.kv["pvo"]
@@ -677,7 +683,11 @@ func (e *signersEnv) exec(line string) (res string) {
 			k.SetScopeSpecification(ctx, types.ScopeSpecification{SpecificationId: prop.SpecificationId, PartiesInvolved: newRoles})
 		}
 		if via {
-			_, merr := ms.WriteScope(ctx, &types.MsgWriteScopeRequest{Scope: prop, Signers: signers})
+			wmsg, ok := signersScopeMsg(idForm, prop, signers)
+			if !ok {
+				return "bad-op"
+			}
+			_, merr := ms.WriteScope(ctx, wmsg)
 			return storedScope(merr)
 		}
 		_, verr := k.ValidateWriteScope(ctx, &types.MsgWriteScopeRequest{Scope: prop, Signers: signers})
@@ -806,7 +816,11 @@ func (e *signersEnv) exec(line string) (res string) {
 		}
 		msg := &types.MsgWriteSessionRequest{Session: types.Session{SessionId: sessID, SpecificationId: cSpecID, Parties: proposed, Name: "sess"}, Signers: signers}
 		if via {
-			_, merr := ms.WriteSession(ctx, msg)
+			wmsg, ok := signersSessionMsg(idForm, msg.Session, signers)
+			if !ok {
+				return "bad-op"
+			}
+			_, merr := ms.WriteSession(ctx, wmsg)
 			c := e.class(merr)
 			if merr != nil {
 				return c
@@ -859,7 +873,11 @@ func (e *signersEnv) exec(line string) (res string) {
 			k.SetRecord(ctx, *existing)
 		}
 		if via {
-			_, merr := ms.WriteRecord(ctx, &types.MsgWriteRecordRequest{Record: rec, Signers: signers})
+			wmsg, ok := signersRecordMsg(idForm, rec, cSpecID, signers)
+			if !ok {
+				return "bad-op"
+			}
+			_, merr := ms.WriteRecord(ctx, wmsg)
 			c := e.class(merr)
 			if merr != nil {
 				return c
@@ -1339,7 +1357,7 @@ func (g *signersGGen) genCaller() string {
 		return line
 	}
 	if g.r.Chance(45) {
-		line += " via=msg"
+		line = g.withIDs(line + " via=msg")
 	}
 	return line
 }
@@ -2044,6 +2062,13 @@ func (e *signersEnv) run(line string, out *Out) {
 	case kind == "mowners" || strings.HasSuffix(line, " via=msg"):
 		out.Count("path:message-server")
 		out.Count("msgserver:" + kind + ":" + signersFirst(res))
+		if i := strings.Index(line, " ids="); i >= 0 {
+			form := signersFirst(line[i+5:])
+			out.Count("ids:" + kind + ":" + form + ":" + signersFirst(res))
+			if kind == "wsession" && !strings.Contains(line, " existing=none ") {
+				out.Count("ids:wsession-existing-session:" + form + ":" + signersFirst(res))
+			}
+		}
 	case kind != "wp" && kind != "wo":
 		out.Count("path:validate-function")
 	}
